@@ -463,6 +463,54 @@ func gen(a vh.Args) {
 	for _, c := range bg {
 		emit(fmt.Sprintf("BG %d %d %s", r.U64()>>1, c[0], intsStr(c[1:])))
 	}
+	// pb.Snapshot.Validate: main file and external files shorter / equal / longer than
+	// recorded, missing, zero sized, without a path
+	{
+		one := func() string {
+			rec := []int{1040, 1, 16, 1044, 4096, 70000, 1 + r.Intn(5000)}[r.Intn(7)]
+			act := rec
+			switch r.Intn(12) {
+			case 0:
+				act = rec + 1
+			case 1:
+				act = rec - 1
+			case 2:
+				act = rec + 1 + r.Intn(5000)
+			case 3:
+				act = r.Intn(rec)
+			case 4:
+				act = 2 * rec
+			}
+			hp, a := 1, fmt.Sprint(act)
+			switch r.Intn(40) {
+			case 0:
+				hp = 0
+			case 1:
+				a = "-"
+			case 2:
+				rec, a = 0, "0"
+			}
+			return fmt.Sprintf("f %d %d %s", hp, rec, a)
+		}
+		npv := 150
+		if a.Tier == "thorough" {
+			npv = 3000
+		}
+		for i := 0; i < npv; i++ {
+			var ops []string
+			for k := 0; k < 1+r.Intn(4)*r.Intn(2)+r.Intn(2); k++ {
+				ops = append(ops, one())
+			}
+			emit("PV | " + strings.Join(ops, " ; "))
+		}
+		// every single deviation around an otherwise exact record, main and external
+		for _, d := range []int{-1, 1, -1040, 1040, 12345} {
+			emit(fmt.Sprintf("PV | f 1 1040 %d", 1040+d))
+			emit(fmt.Sprintf("PV | f 1 1040 1040 ; f 1 500 %d", max(500+d, 0)))
+			emit(fmt.Sprintf("PV | f 1 1040 1040 ; f 1 500 500 ; f 1 9 9 ; f 1 77 %d", max(77+d, 0)))
+		}
+		emit("PV | f 1 1040 1040 ; f 1 500 500")
+	}
 	// stream validator: payload lengths at every boundary of the block size, each against
 	// every structural chunk cut (runVS)
 	{
